@@ -7,7 +7,10 @@ import Lox.LR.Check
   written `k`, rule `A` is written `-(A+1)`; a negative lhs is decoded the same way); production 0
   is `S' → start`. cert: one section per state separated by `;`, each a flat list `p d a p d a …`
   of items (production, dot, lookahead terminal).
-  answer: `ok` or `fail <reason>` (`Lox.LR.check`, sound by `Lox.LR.check_sound`). -/
+  answer: `ok` or `fail <reason>` (`Lox.LR.check`, sound by `Lox.LR.check_sound`).
+
+`lr.errfree <nStates> | _actions`
+  answer: `yes` if no state has an action on ERROR (terminal 1) (`Lox.LR.noErrorB`), else `no`. -/
 namespace Lox.LR
 open Lox.Drv
 
@@ -36,8 +39,20 @@ def handleValidate (payload : String) : Option String := do
                         actions := ← arr acts, gotos := ← arr gotos }
     let cert ← (← parseSections cert ';').mapM parseItems
     match check ⟨prods.toArray⟩ nTerms nRules T cert.toArray with
-    | .ok () => some "ok"
+    | .ok () =>
+      if termB ⟨prods.toArray⟩ T cert.toArray then some "ok" else some "fail termination check"
     | .error e => some ("fail " ++ e)
+  | _ => none
+
+def handleErrFree (payload : String) : Option String := do
+  match payload.splitOn "|" with
+  | [hd, acts] =>
+    let n ← match ← parseNats hd with
+      | [n] => some n
+      | _ => none
+    let T : Tables := { rules := #[], termCounts := #[], actions := (← parseInts acts).toArray,
+                        gotos := #[] }
+    some (if noErrorB T n then "yes" else "no")
   | _ => none
 
 end Lox.LR
